@@ -66,6 +66,16 @@ partial def interp (M : Sem (Option (List Goat.Num.Val))) : Nat → Stmt → Opt
       | some (.brk, st1) => some (.normal, st1)
       | some (_, st1) => interp M f (.forever b p) (M.act p st1)
       | none => none
+    | .swd d =>
+      match interp M f d st with
+      | some (.brk, st1) => some (.normal, st1)
+      | r => r
+    | .swc c a r =>
+      if M.cval c st then
+        match interp M f a (M.ceff c st) with
+        | some (.brk, st1) => some (.normal, st1)
+        | r' => r'
+      else interp M f r (M.ceff c st)
 
 /-- the instruction-level machine with jumps (do.go: `N += A`, then `N++`) -/
 partial def vmRun (code : Array Instr) : Nat → Nat → St Goat.Num.Val → Option (Option (St Goat.Num.Val))
